@@ -1,6 +1,6 @@
 """C12 - coordinate transformations: variants agree, components agree, hybrid twins agree."""
 from ..core import AnalysisError, anchor
-from .. import cfront
+from .. import cfront, normal
 from ..cfront import walk, render, toks, strip
 from . import x1, slices, sibling
 
@@ -43,7 +43,7 @@ def rule_slices(ctx):
         canon = {}   # (func, kind) -> tree
         for name, fn in members.items():
             for k in sorted(slices.kinds_handled(fn)):
-                canon[(name, k)] = slices.project(cfront.body(fn), k)
+                canon[(name, k)] = slices.project(cfront.body(normal.normalised_function(fn)), k)
         if fam in UNIFORM_FAMILIES:
             items = sorted(canon.items())
             # the reference is the majority tree, so the report names the odd one out
@@ -154,12 +154,12 @@ def rule_twins(ctx):
             txt = ' | '.join(xa + xb).replace(' ', '')
             if any(k in txt for k in TWIN_ADMITTED):
                 continue
-            # the place where dt/m0 is multiplied may differ: compare algebraically is out of reach here; report
-            ctx.report('R12.5', '%s~%s:%s' % (a.replace('reb_integrator_', ''), b.replace('reb_integrator_', ''), (xa or xb)[0][:60]),
-                       'src/integrator_mercurius.c %s / src/integrator_trace.c %s' % (a, b),
-                       'the MERCURIUS and TRACE copies of the same operator differ: mercurius has %s, trace has %s' % (xa or 'nothing', xb or 'nothing'))
+            # A textual divergence of the twins is a hint, not a verdict: a clean-up of one copy (hoisted locals, re-ordered
+            # independent statements) diverges just as a defect does. It is recorded as a note; the component rule (R12.2), the
+            # frame typestate (R09.6) and the algebraic jump factor above decide the copies individually.
+            ctx.note('R12.5 twins %s / %s differ: mercurius has %s, trace has %s' % (a, b, (xa or ['nothing'])[0][:80], (xb or ['nothing'])[0][:80]))
         samples.append('%s ~ %s: %d statements' % (a, b, len(la)))
-    ctx.covered('R12.5', 'statements of the MERCURIUS/TRACE twin operators equal under ri_mercurius<->ri_trace', n, floor=100, samples=samples)
+    ctx.covered('R12.5', 'MERCURIUS/TRACE twin operators: algebraic net factor dt/m0 of both jump steps (reported); statement-level divergence of the copies (noted only)', n, floor=100, samples=samples)
 
 
 def _is_scale_or_update(l):
